@@ -26,7 +26,7 @@ RULE = ("issue lists of four entry points: (string) C01 annotations and all muta
 ASSUMPTIONS = ["offset checks use the text of the issue's own ec_HedString context and the span hed reports for the tag",
                "the quoted fragment of a sub-tag issue is tag_text[index_in_tag:index_in_tag_end], as the decorator does"]
 MIN_MONITOR_EVALS = {"issue-fields": 5000, "issue-offsets": 1000, "location-suffix-once": 1000,
-                     "errors-only-is-subset": 800, "sort-stable-ordered": 500, "json-export": 500}
+                     "errors-only-is-subset": 800, "group-issue-fragment": 30, "sort-stable-ordered": 500, "json-export": 500}
 SUFFIX = "Problem spans string indexes"
 VERSIONS = ["8.3.0", "8.2.0"]
 _decorations = {"n": 0, "installed": False}
@@ -117,6 +117,17 @@ def check_issue(i, rec, case):
                         return False
                     if "index_in_tag" in i and frag and frag not in msg:
                         rec.violation("the selected fragment is not the one quoted in the message",
+                                      dict(case, code=i["code"], selected=frag, message=msg))
+                        return False
+                elif isinstance(tag, HedGroup):
+                    # an issue about a whole group (an empty one): the group as written is selected and quoted
+                    rec.mon("group-issue-fragment")
+                    if frag != text[s:e]:
+                        rec.violation("offsets do not select the group the issue names",
+                                      dict(case, code=i["code"], selected=frag, expected=text[s:e]))
+                        return False
+                    if frag not in msg:
+                        rec.violation("the selected group text is not the one quoted in the message",
                                       dict(case, code=i["code"], selected=frag, message=msg))
                         return False
         else:
